@@ -135,6 +135,62 @@
             (not (same a b)) (string/format "results differ: %q vs %q" a b)
             (not (same af bf)) (string/format "final values differ: %q vs %q" af bf))))
 
+# ------------------------------------------------------------------ closures over big frames (closure bitset word boundaries)
+# The owner has P parameters (slots 0..P-1) followed by a few vars; the closures capture slots at and around the
+# 32-slot word boundaries of def->closure_bitset (31, 32, 33, 63, 64, 65 ...).  Three ways to marshal them:
+#   :running   from inside the still-running owner (env on the stack of a fiber that cannot be marshalled: early detach)
+#   :suspended the owner is a suspended fiber, marshalled together with the closures (env on the fiber's stack)
+#   :detached  after the owner returned
+(defn scenario-bigframe [round]
+  (def sizes [31 32 33 34 40 63 64 65 66 80 1 2 16 96])
+  (def P (if (< round (length sizes)) (in sizes round) (+ 1 (rnd 100))))
+  (def nvars (+ 1 (rnd 4)))
+  (def params (seq [i :range [0 P]] (symbol "p" i)))
+  (def vars (seq [i :range [0 nvars]] (symbol "c" i)))
+  (def all (array/concat @[] params vars))
+  (def n (length all))
+  (def idxs (distinct (filter |(and (>= $ 0) (< $ n)) [0 1 30 31 32 33 62 63 64 65 95 96 (- P 1) P (- n 1) (rnd n) (rnd n)])))
+  (def cap (map |(in all $) idxs))
+  (def capvars (filter |(index-of $ vars) cap))
+  (def varinit (map (fn [v i] ~(var ,v ,(+ 5000 (* 7 i)))) vars (range nvars)))
+  (def getter ~(fn [] [,;cap]))
+  (def bump ~(fn [d] ,;(map (fn [v] ~(set ,v (+ ,v d))) capvars) nil))
+  (def args (seq [i :range [0 P]] (+ 1 (* 3 i))))
+  (def problems @[])
+  (defn check [mode res]
+    (def [a b c d] res)
+    (unless (same a b) (array/push problems (string/format "%s: P=%d captured slots %q: original sees %q, copy sees %q" mode P idxs a b)))
+    (unless (same c d) (array/push problems (string/format "%s: P=%d after bump: original %q, copy %q" mode P d c))))
+  # running owner
+  (def f-running (eval ~(fn [,;params] ,;varinit
+                          (def getter ,getter) (def bump ,bump)
+                          (def [g2 b2] (,unmarshal (,marshal [getter bump] (quote ,mdict)) (quote ,ldict)))
+                          (def a (getter)) (def b (g2))
+                          (if (not (,deep= a b))
+                            [a b :skipped :skipped]
+                            (do (b2 7) (def c (g2))
+                                (bump 7) (def d (getter))
+                                [a b c d])))))
+  (check :running (f-running ;args))
+  # detached
+  (def f-detached (eval ~(fn [,;params] ,;varinit [,getter ,bump])))
+  (let [[g b] (f-detached ;args)
+        [g2 b2] (copy-with-dict [g b])]
+    (def a (g)) (def bb (g2))
+    (if (not (deep= a bb)) (check :detached [a bb :skipped :skipped])
+      (do (b2 7) (def c (g2)) (b 7) (def d (g))
+          (check :detached [a bb c d]))))
+  # suspended fiber
+  (def f-susp (eval ~(fn [,;params] ,;varinit (yield [,getter ,bump]) (yield (,tuple ,;cap)) :done)))
+  (let [fib (fiber/new (fn [] (f-susp ;args)) :yi)
+        [g b] (resume fib)
+        [g2 b2 fib2] (copy-with-dict [g b fib])]
+    (def a (g)) (def bb (g2))
+    (if (not (deep= a bb)) (check :suspended [a bb :skipped :skipped])
+      (do (b2 7) (def c [(g2) (resume fib2)]) (b 7) (def d [(g) (resume fib)])
+          (check :suspended [a bb c d]))))
+  (report (string "closure-bigframe/P" P "/" round) (if (empty? problems) nil (string/join problems "; "))))
+
 # ------------------------------------------------------------------ suspended fibers
 (defn gen-fiber-body [kind p q]
   (case kind
@@ -375,6 +431,8 @@
   (guarded "closures-shared-env" scenario-closures r)
   (guarded "closure-env-on-fiber-stack" scenario-onstack-env r)
   (guarded "closure-env-on-running-fiber" scenario-alive-env r)
+  (guarded "closure-bigframe" scenario-bigframe r)
+  (guarded "closure-bigframe" scenario-bigframe (+ r rounds))
   (guarded "suspended-fiber" scenario-fiber r)
   (guarded "suspended-fiber" scenario-fiber r)
   (guarded "peg" scenario-peg r)
